@@ -379,6 +379,14 @@ def _stmts(conn, start):
     return [{k: st.get(k) for k in ("sql", "parse", "fixed_point", "error", "rerendered")} for st in conn.log[start:]]
 
 
+def expr_text(sess, col):
+    """the text the engine-specific branch emits for this call, in the session's execution dialect (no CTE / alias names in it)"""
+    try:
+        return col.expression.sql(dialect=sess.execution_dialect)
+    except Exception as ex:  # noqa
+        return "render-error:" + type(ex).__name__
+
+
 def run_one(sess, conn, F, K, call):
     """one call, one statement (two for an aggregate: the 5 ordinary rows, the all-NULL row)"""
     ent = {"id": call["id"], "fn": call["fn"], "mode": call["mode"]}
@@ -386,6 +394,7 @@ def run_one(sess, conn, F, K, call):
     try:
         df = _frame(sess, K, call_columns(call, K))
         col = K.build_call(call, F)
+        ent["expr"] = expr_text(sess, col)
         if call["mode"] == "row":
             q = df.select("id", col)
             ent["tree"] = q.expression.sql(dialect="spark")
@@ -417,7 +426,8 @@ def run_batch(sess, conn, F, K, batch):
             cols += [c for c in call_columns(call, K) if c not in cols]
         df = _frame(sess, K, cols)
         built = [K.build_call(call, F) for call in batch]
-        ents = [{"id": c["id"], "fn": c["fn"], "mode": c["mode"], "exc": None, "tree": None, "batched": len(batch)} for c in batch]
+        ents = [{"id": c["id"], "fn": c["fn"], "mode": c["mode"], "exc": None, "tree": None, "batched": len(batch),
+                 "expr": expr_text(sess, b)} for c, b in zip(batch, built)]
         if batch[0]["mode"] == "row":
             got = sorted(df.select("id", *built).collect(), key=lambda r: r[0])
             if len(got) != len(K.ROWS) or len(got[0]) != len(batch) + 1:
